@@ -324,7 +324,10 @@ pub fn drive(img: &[u8], pw: &[u8], bufs: &[u32], ctx: &mut Ctx) -> Result<(u64,
         let n = ar.len();
         sig = mix(sig, n as u64);
         let _ = (ar.comment().len(), ar.offset(), ar.is_empty());
-        let names: Vec<String> = ar.file_names().take(64).map(|s| s.to_string()).collect();
+        // file_names() iterates a randomly seeded hash map: sort before sampling, or the run is not replayable
+        let mut names: Vec<String> = ar.file_names().map(|s| s.to_string()).collect();
+        names.sort();
+        names.truncate(64);
         for i in 0..n.min(48) {
             if let Ok(mut f) = ar.by_index(i) {
                 ctx.probe("entry_opened");
